@@ -21,7 +21,7 @@ LEVEL_TEXT = (
     "octets, bursts, flag loss/insertion, abort sequences) x fragmentations x four reader configurations; every returned frame is "
     "judged by predicates written from RFC 1662 / ISO 13239. Sampling, not proof."
 )
-RUNS = {"quick": 120000, "thorough": 1000000}
+RUNS = {"quick": 120000, "thorough": 5000000}
 CHUNK = {"quick": 300, "thorough": 2000}
 BUDGET_S = {"quick": 90, "thorough": 1500}
 RULE = (
